@@ -45,7 +45,19 @@ fn pool() -> Vec<Op> {
     ]
 }
 
-const PREFIX: [(usize, usize, bool); 6] = [(0, 0, false), (9, 0, false), (1, 0, true), (10, 0, true), (2, 0, false), (3, 1, false)];
+/// (pool index, source, is a delete, the storage refuses this request)
+type PrefixStep = (usize, usize, bool, bool);
+
+/// Prefix 0: both early documents deleted. Prefix 1: the delete of the second document is
+/// refused by the storage (a failed request must leave no trace that a later purge acts on;
+/// added after C08-l). Prefix 2: refused, then delivered again and accepted.
+fn prefixes() -> Vec<Vec<PrefixStep>> {
+    vec![
+        vec![(0, 0, false, false), (9, 0, false, false), (1, 0, true, false), (10, 0, true, false), (2, 0, false, false), (3, 1, false, false)],
+        vec![(0, 0, false, false), (9, 0, false, false), (1, 0, true, false), (10, 0, true, true), (2, 0, false, false), (3, 1, false, false)],
+        vec![(0, 0, false, false), (9, 0, false, false), (1, 0, true, false), (10, 0, true, true), (10, 0, true, false), (2, 0, false, false), (3, 1, false, false)],
+    ]
+}
 
 #[derive(Clone, Copy, Debug, PartialEq, Eq, Hash)]
 enum Ev {
@@ -76,8 +88,8 @@ fn ev_json(pool: &[Op], e: &Ev) -> J {
     }
 }
 
-fn case_json(pool: &[Op], seq: &[Ev]) -> J {
-    J::obj().set("block", "actor").set("events", J::Arr(seq.iter().map(|e| ev_json(pool, e)).collect()))
+fn case_json(pool: &[Op], prefix: usize, seq: &[Ev]) -> J {
+    J::obj().set("block", "actor").set("prefix", prefix as u64).set("events", J::Arr(seq.iter().map(|e| ev_json(pool, e)).collect()))
 }
 
 type Live = BTreeMap<Key, HLCTimestamp>;
@@ -88,14 +100,19 @@ struct Actor {
     _group: ec::KeyspaceGroup<FaultStore<MapStore>>,
 }
 
-async fn start(pool: &[Op]) -> Actor {
+async fn start(pool: &[Op], prefix: usize) -> Actor {
     let clock = Clock::new(9);
     let store = Arc::new(FaultStore::new(Arc::new(MapStore::default())));
     let group = ec::KeyspaceGroup::new(store.clone(), clock).await;
     let ks = group.get_or_create_keyspace(KS).await;
-    for (op, src, del) in PREFIX {
+    for (op, src, del, fail) in prefixes()[prefix].clone() {
         let req = if del { Req::Del { op, src } } else { Req::Set { op, src } };
-        send_request(&ks, pool, &req).await.expect("prefix request");
+        if fail {
+            store.plan([Fault::FailBefore]);
+        }
+        let res = send_request(&ks, pool, &req).await;
+        store.plan([]);
+        assert_eq!(res.is_err(), fail, "prefix request {op}: {res:?}");
     }
     Actor { store, ks, _group: group }
 }
@@ -104,11 +121,11 @@ async fn storage_live(a: &Actor) -> Result<Live, String> {
     Ok(read_rows(a.store.as_ref(), KS).await?.into_iter().filter(|(_, (_, d))| d.is_some()).map(|(k, (t, _))| (k, t)).collect())
 }
 
-async fn execute(pool: &[Op], seq: &[Ev], st: &mut Stats) {
+async fn execute(pool: &[Op], prefix: usize, seq: &[Ev], st: &mut Stats) {
     let _wall = Wall::start();
-    let a = start(pool).await;
-    let twin = start(pool).await;
-    let case = || case_json(pool, seq);
+    let a = start(pool, prefix).await;
+    let twin = start(pool, prefix).await;
+    let case = || case_json(pool, prefix, seq);
     let rank = seq.len() as u64;
     let fmt = |l: &Live| l.iter().map(|(k, t)| format!("{k}@{t}")).collect::<Vec<_>>().join(" ");
     let stale = pool[7];
@@ -242,17 +259,23 @@ pub fn run(tier: Tier, report: &mut Report) {
     let max_len = tier.pick(4, 5);
     // prefixes are covered by their extensions (the oracle runs after every step), so only
     // the sequences of maximal length are executed; counterexamples are ranked by length
-    let seqs: Vec<Vec<Ev>> = sequences(&al, max_len).into_iter().filter(|s| s.len() == max_len).collect();
-    let parts = par::par_map(&seqs, |_, seq| {
+    let all = sequences(&al, max_len);
+    let mut seqs: Vec<(usize, Vec<Ev>)> = Vec::new();
+    for prefix in 0..prefixes().len() {
+        // the prefixes with a refused delete run one step shorter
+        let len = if prefix == 0 { max_len } else { max_len - 1 };
+        seqs.extend(all.iter().filter(|s| s.len() == len).map(|s| (prefix, s.clone())));
+    }
+    let parts = par::par_map(&seqs, |_, (prefix, seq)| {
         let mut st = Stats::default();
-        vkit::e2::block_on_fresh(execute(&pool, seq, &mut st));
+        vkit::e2::block_on_fresh(execute(&pool, *prefix, seq, &mut st));
         st
     });
     let mut total = Stats::default();
     for p in parts {
         total.merge(p);
     }
-    total.sample(|| case_json(&pool, &seqs[seqs.len() / 2]));
+    total.sample(|| case_json(&pool, seqs[seqs.len() / 2].0, &seqs[seqs.len() / 2].1));
     let n = total.get("actor_sequences");
     let tr = total.get("actor_transitions");
     let purges = total.get("actor_purges");
@@ -269,7 +292,7 @@ pub fn run(tier: Tier, report: &mut Report) {
     report.cover("actor_block_distinct_outcomes", outcomes);
     report.cover(
         "actor_block_rule",
-        "fixed prefix (two documents written and deleted, the deleting node moves on by more than an hour on both sources) followed by every sequence of the given length over \
+        "three prefixes (two documents written and deleted, the deleting node moves on by more than an hour on both sources; the second delete accepted / refused by the storage / refused and delivered again) followed by every sequence of the given length over \
          {purge with the storage ok / refusing / refusing one document / failing after one, re-write, re-delete, stale insert of the deleting node, another node's write, unrelated write} x source, \
          on the real keyspace actor behind the fault-injecting store, with a never-purging twin actor",
     );
@@ -301,7 +324,8 @@ pub fn replay(case: &J) -> i32 {
         }
     }
     let mut st = Stats::default();
-    vkit::e2::block_on_fresh(execute(&pool, &seq, &mut st));
+    let prefix = case.get("prefix").and_then(|v| v.as_u64()).unwrap_or(0) as usize;
+    vkit::e2::block_on_fresh(execute(&pool, prefix, &seq, &mut st));
     for f in &st.found {
         println!("{}: {}", f.key, f.what);
     }
